@@ -910,6 +910,14 @@ impl TxOracle {
         TxOracle { side, ..Default::default() }
     }
 
+    /// the socket is back in LISTEN (handshake reset): whatever it sends next belongs to a new
+    /// connection with a new initial sequence number; statistics are kept
+    pub fn new_incarnation(&mut self) {
+        let keep = (self.n_rto, self.n_fast, self.n_data, self.n_probe, self.zero_window_adv);
+        *self = TxOracle::new(self.side);
+        (self.n_rto, self.n_fast, self.n_data, self.n_probe, self.zero_window_adv) = keep;
+    }
+
     fn peer_scale(&self) -> u32 {
         match (self.syn_ws, self.peer_ws) {
             (Some(_), Some(p)) => p as u32,
@@ -1762,7 +1770,8 @@ impl E2e {
                 e.txo.on_delivered(sg, if single { Some(cx) } else { None });
             }
             // watchdog: a poll that keeps transmitting would never return on a real device
-            e.dev.tx_budget = Some(POLL_TX_BUDGET);
+            // (every ingested frame may be answered at once, so the budget grows with the input)
+            e.dev.tx_budget = Some(POLL_TX_BUDGET + 2 * e.dev.rx.len());
             e.iface.poll(Instant::from_micros(now), &mut e.dev, &mut e.sockets);
             livelock = e.dev.tx_budget == Some(0);
             e.dev.tx_budget = None;
@@ -1776,6 +1785,9 @@ impl E2e {
             e.refresh_deadline(now);
             if e.sock_ref().state() != tcp::State::Closed && e.sock_ref().state() != tcp::State::Listen {
                 e.was_active = true;
+            }
+            if e.sock_ref().state() == tcp::State::Listen && e.txo.iss.is_some() {
+                e.txo.new_incarnation();
             }
         }
         self.out.bump("polls", 1);
@@ -2473,7 +2485,7 @@ impl RxSim {
         let now = self.now;
         let before = self.rxcap - self.sock_ref().recv_queue();
         let n0 = self.dev.n_rx;
-        self.dev.tx_budget = Some(if self.device_busy { 0 } else { POLL_TX_BUDGET });
+        self.dev.tx_budget = Some(if self.device_busy { 0 } else { POLL_TX_BUDGET + 2 * self.dev.rx.len() });
         let st0 = self.sock_ref().state();
         let q0 = self.sock_ref().recv_queue();
         self.iface.poll(Instant::from_micros(now), &mut self.dev, &mut self.sockets);
